@@ -22,8 +22,9 @@ import drive_denoise as dd
 
 TH_SESSION = ['RB.Denoise.c20_restore_once', 'RB.Denoise.c20_noD_silent',
               'RB.Denoise.c20_restore_after_processes_partial', 'RB.Denoise.c20_no_result_no_restore']
-TH_WRAP = ['RB.Denoise.c20_wrap_spec', 'RB.Denoise.c20_wrap_none']
-TH_SHIELD = ['RB.Denoise.c20_shield_range', 'RB.Denoise.c20_shield_range_real', 'RB.Denoise.c20_shieldLo_is_floor_log']
+TH_WRAP = ['RB.Denoise.c20_wrap_spec', 'RB.Denoise.c20_wrap_none', 'RB.Denoise.c20_caps_as_reported']
+TH_SHIELD = ['RB.Denoise.c20_shield_range', 'RB.Denoise.c20_shield_range_real', 'RB.Denoise.c20_shieldLo_is_floor_log',
+             'RB.Denoise.c20_shield_within_cores']
 
 PATHS = ['ok', 'failed', 'ui_error', 'interrupt', 'crash']
 ENVS = [{}, {'A': '1'}, {'LANG': 'C', 'JAVA_HOME': '/opt/j', 'X_1': 'a b'}]
